@@ -325,8 +325,15 @@ def oracle_c04(cfgl, lines):
     ever = {}                    # key -> set of versions
     acked = {}                   # key -> list of (wl_at_ack, version|None) in order
     pending = {}                 # key -> version|None written since the last wait
+    woi = cfg.get("policy") == "woi"
+    wrap = cfg.get("wrap") == "1"
+    prev = ""
     for n, l in enumerate(lines):
         name, kv, r, nw, ew, wl = parse(l)
+        if name != "crashprobe":
+            prev_, prev = prev, name
+        if name == "wait":
+            prev = prev_ if prev_ == "memevict" else prev
         if r in ("PANIC", "HANG") and name != "crashprobe":
             return (n, f"{name}: {r}")
         if name in ("ins", "sins"):
@@ -335,9 +342,11 @@ def oracle_c04(cfgl, lines):
         elif name == "rm":
             pending[int(kv["k"])] = None
         elif name == "wait":
-            for k, v in pending.items():
-                acked.setdefault(k, []).append((wl, v))
-            pending = {}
+            # acknowledged as flushed: under write-on-eviction only what was evicted from memory before the wait
+            if woi or prev == "memevict":
+                for k, v in pending.items():
+                    acked.setdefault(k, []).append((wl, v))
+                pending = {}
         elif name == "crashprobe":
             cut = int(kv["cut"])
             if r in ("PANIC", "HANG") or "openerr" in r or r.startswith("PANIC"):
@@ -356,8 +365,8 @@ def oracle_c04(cfgl, lines):
                     if key != k or corrupt or ver not in ever.get(k, set()):
                         return (n, f"crash image (cut {cut}): key {k} reads {s}, which was never inserted for it")
                     got = ver
-                # no regress: the latest state acknowledged at or before the cut
-                hist = [(w, v) for (w, v) in acked.get(k, []) if w <= cut]
+                # no regress (while no block has been reclaimed): the latest state acknowledged at or before the cut
+                hist = [] if wrap else [(w, v) for (w, v) in acked.get(k, []) if w <= cut]
                 if hist:
                     w, v = hist[-1]
                     later = {vv for (ww, vv) in acked.get(k, []) if ww > cut} | ({pending[k]} if k in pending else set())
